@@ -37,17 +37,7 @@ let hex_of_bytes l =
 let list_field f s = if s = "~" then [] else List.map f (String.split_on_char ',' s)
 let hexlist l = if l = [] then "~" else String.concat "," (List.map hex_of_bytes l)
 
-let dispatch (f : string list) : string =
-  match f with
-  | ["pick"; n] -> "OK " ^ dec_of_n (pick (n_of_dec n))
-  | ["round53"; n] -> "OK " ^ dec_of_n (round53 (n_of_dec n))
-  | cmd :: _ -> "BADCMD " ^ cmd
-  | [] -> "BADLINE"
 
-let () =
-  try while true do
-    let line = input_line stdin in
-    let reply = try dispatch (String.split_on_char ' ' line) with
-      | Stack_overflow -> "MODELFAIL stack" | e -> "MODELFAIL " ^ Printexc.to_string e in
-    print_string reply; print_char '\n'
-  done with End_of_file -> ()
+(* handlers register themselves here: command name -> fields (without the command) -> reply *)
+let handlers : (string, string list -> string) Hashtbl.t = Hashtbl.create 64
+let register name fn = Hashtbl.replace handlers name fn
